@@ -261,7 +261,7 @@ func checkMain(args []string) int {
 
 	timeout := 8 * time.Minute
 	if *tier == "thorough" {
-		timeout = 3 * time.Hour
+		timeout = 5 * time.Hour
 	}
 	if v := os.Getenv("VERIF_WATCHDOG_S"); v != "" {
 		if x, err := strconv.Atoi(v); err == nil && x > 0 {
